@@ -530,8 +530,8 @@ def _all_directive_options():
 
 DIR_OPTS = []
 DIR_NAMES = []
-ATTR_KEYS = ["width", "height", "align", "w", "h", "a", "class", "id", "name", "scale", "alt", "title", "target", "nosuchkey", "lineno-start", "emphasize-lines", "number-lines"]
-ATTR_VALUES = ["1q", "x", "10px", "50%", "left", "-1", "\"a b\"", "\"\u00b2\"", "\"\u2460\"", "\"\u0663\"", "\"\"", "\"1,3-2\""]  # (superscript two, circled one: digits for str.isdigit, not for int)
+ATTR_KEYS = ["width", "height", "align", "w", "h", "a", "class", "id", "name", "scale", "alt", "title", "target", "nosuchkey", "lineno-start", "emphasize-lines", "number-lines", "style", "start"]
+ATTR_VALUES = ["1q", "x", "lower-greek", "lower-alpha", "10px", "50%", "left", "-1", "\"a b\"", "\"\u00b2\"", "\"\u2460\"", "\"\u0663\"", "\"\"", "\"1,3-2\""]  # (superscript two, circled one: digits for str.isdigit, not for int)
 
 
 def run_more(kind, i, real=False):
@@ -547,7 +547,7 @@ def run_more(kind, i, real=False):
         over = {}
     elif kind == "attrs":
         k_, v_ = ATTR_KEYS[i // len(ATTR_VALUES)], ATTR_VALUES[i % len(ATTR_VALUES)]
-        text = "![alt](img.png){%s=%s} [link](http://x){%s=%s} `code`{%s=%s} [span]{%s=%s}\n\n{%s=%s}\npara\n\n{%s=%s}\n# Heading\n\n{%s=%s}\n![b](c.png)\n\n{%s=%s}\n```python\ncode\n```\n\n{%s=%s}\n    indented code\n\n{%s=%s}\n```{code-block} python\ncode\n```\n" % ((k_, v_) * 10)
+        text = "![alt](img.png){%s=%s} [link](http://x){%s=%s} `code`{%s=%s} [span]{%s=%s}\n\n{%s=%s}\npara\n\n{%s=%s}\n# Heading\n\n{%s=%s}\n![b](c.png)\n\n{%s=%s}\n```python\ncode\n```\n\n{%s=%s}\n    indented code\n\n{%s=%s}\n```{code-block} python\ncode\n```\n\n{%s=%s}\n1. one\n2. two\n\n{%s=%s}\n- bullet\n\n{%s=%s}\n> quote\n\n{%s=%s}\n| a | b |\n|---|---|\n| 1 | 2 |\n\n{%s=%s}\n---\n" % ((k_, v_) * 15)
         over = {"myst_enable_extensions": ["attrs_inline", "attrs_block"]}
     elif kind == "optval":
         text = "```{note}\n:class: %s\n:name: n%d\n\nbody\n```\n\n```{note}\n---\nclass: %s\n---\nbody\n```\n\nafter\n" % (OPTION_VALUES[i], i, OPTION_VALUES[i])
